@@ -1,0 +1,15 @@
+//go:build verif
+// +build verif
+
+package gc
+
+// This file is only compiled with the `verif` build tag. It adds no behaviour.
+
+// VerifRunOnce runs one garbage collection round of the file collectors (allocated-IP dirs, then gc dirs),
+// i.e. what Run() does on each timer tick, without timers and without the veth collector.
+func VerifRunOnce(g GC) {
+	if f, ok := g.(*flannelGC); ok {
+		_ = f.cleanupIP()
+		_ = f.cleanupGCDirs()
+	}
+}
